@@ -20,9 +20,20 @@ WS_RANGES = [(0x09, 0x0D), (0x20, 0x20), (0x85, 0x85), (0xA0, 0xA0), (0x1680, 0x
              (0x2028, 0x2029), (0x202F, 0x202F), (0x205F, 0x205F), (0x3000, 0x3000)]
 
 
+_WS_CACHE = {}
+
+
 def is_ws(c):
     if not is_sym(c):
         return any(a <= c <= b for a, b in WS_RANGES)
+    r = _WS_CACHE.get(c.get_id())
+    if r is None:
+        r = (_is_ws(c), c)
+        _WS_CACHE[c.get_id()] = r
+    return r[0]
+
+
+def _is_ws(c):
     terms = []
     for a, b in WS_RANGES:
         if a == b:
@@ -37,9 +48,20 @@ def valid_scalar(c):
                   z3.Or(z3.ULT(c, z3.BitVecVal(0xD800, 32)), z3.UGT(c, z3.BitVecVal(0xDFFF, 32))))
 
 
+_U8_CACHE = {}
+
+
 def utf8len(c):
     if not is_sym(c):
         return 1 if c < 0x80 else 2 if c < 0x800 else 3 if c < 0x10000 else 4
+    r = _U8_CACHE.get(c.get_id())
+    if r is None:
+        r = (_utf8len(c), c)
+        _U8_CACHE[c.get_id()] = r
+    return r[0]
+
+
+def _utf8len(c):
     return z3.If(z3.ULT(c, z3.BitVecVal(0x80, 32)), z3.BitVecVal(1, 64),
                  z3.If(z3.ULT(c, z3.BitVecVal(0x800, 32)), z3.BitVecVal(2, 64),
                        z3.If(z3.ULT(c, z3.BitVecVal(0x10000, 32)), z3.BitVecVal(3, 64), z3.BitVecVal(4, 64))))
@@ -1833,3 +1855,8 @@ def slice_join(m, a, ci):
             out = out.concat(sep)
         out = out.concat(_s(m, g(i)))
     return out
+
+
+@reg('Into::into', 'From::from')
+def into_into(m, a, ci):
+    return a[0]
